@@ -143,4 +143,4 @@ def run(ctx):
     from skchange.change_detectors import MovingWindow as _MW
     from skchange.costs import GaussianVarCost as _GV
     variants_stream(ctx, "MovingWindow(CUSUM)", lambda: _MW(bandwidth=5), ctx.n(3, 20), flat_make=lambda: _MW(bandwidth=5, threshold_scale=1e6))
-    variants_stream(ctx, "MovingWindow(GaussianVarCost)", lambda: _MW(change_score=_GV(), bandwidth=6, threshold_scale=1.0), ctx.n(2, 12))
+    variants_stream(ctx, "MovingWindow(GaussianVarCost)", lambda: _MW(change_score=_GV(), bandwidth=6, threshold_scale=1.0), ctx.n(2, 12), nested=("change_score__param", (0.0, 1.0)))
